@@ -10,6 +10,7 @@ import (
 	"fmt"
 	"hash/fnv"
 	"os"
+	"os/exec"
 	"path/filepath"
 	"runtime"
 	"runtime/debug"
@@ -285,6 +286,7 @@ func Main[C any](t *testing.T, p Prop[C]) {
 	}
 
 	failFile := os.Getenv("VERIF_FAILFILE")
+	isolate := os.Getenv("VERIF_ISOLATE") != ""
 	n := 0
 	rapid.Check(t, func(rt *rapid.T) {
 		c := p.Gen(rt)
@@ -296,7 +298,16 @@ func Main[C any](t *testing.T, p Prop[C]) {
 		if col.failed {
 			tries = p.Retries
 		}
-		out, err := runRetry(p, c, tries)
+		var out Outcome
+		var err error
+		if isolate {
+			// isolation mode (driver fallback after a failing case did not reproduce on its own: the
+			// code under test carries state from one case to the next): every case runs in a process
+			// of its own, so a case that fails here fails by itself
+			err = runIsolated(t.Name(), p.Name, raw)
+		} else {
+			out, err = runRetry(p, c, tries)
+		}
 		if !col.failed {
 			col.record(raw, out)
 			n++
@@ -322,6 +333,38 @@ func Main[C any](t *testing.T, p Prop[C]) {
 			rt.Fatalf("property %s/%s violated: %s\ncase: %s", p.ID, p.Name, msg, trunc(string(raw), 1500))
 		}
 	})
+}
+
+// runIsolated replays one case in a fresh process of this test binary.
+func runIsolated(testName, mode string, raw []byte) error {
+	f, err := os.CreateTemp("", "verif-iso-*.json")
+	if err != nil {
+		return nil
+	}
+	defer os.Remove(f.Name())
+	_, _ = f.Write(raw)
+	_ = f.Close()
+	cmd := exec.Command(os.Args[0], "-test.run", "^"+testName+"$", "-test.count=1", "-test.timeout", "600s")
+	env := []string{}
+	for _, kv := range os.Environ() {
+		if strings.HasPrefix(kv, "VERIF_ISOLATE=") || strings.HasPrefix(kv, "VERIF_REPLAY=") || strings.HasPrefix(kv, "VERIF_STATS=") || strings.HasPrefix(kv, "VERIF_FAILFILE=") || strings.HasPrefix(kv, "VERIF_CURCASE=") {
+			continue
+		}
+		env = append(env, kv)
+	}
+	cmd.Env = append(env, "VERIF_REPLAY="+f.Name(), "VERIF_ONLY="+mode)
+	outb, runErr := cmd.CombinedOutput()
+	if runErr == nil {
+		return nil
+	}
+	msg := string(outb)
+	if i := strings.Index(msg, "REPLAY-FAIL"); i >= 0 {
+		msg = msg[i:]
+	}
+	if len(msg) > 3000 {
+		msg = msg[:3000]
+	}
+	return fmt.Errorf("(isolated run) %s", msg)
 }
 
 func trunc(s string, n int) string {
